@@ -4,7 +4,7 @@ from props import COMMON_TB
 CACHE_TB = COMMON_TB + [
     "cache model lean/Gnmi/Model/Cache.lean over the abstract prefix-free map (justified by C09 history_refinement); "
     "proto.Equal is represented by canonical renderings of prefix/update/delete messages computed by the harness",
-    "latency windows are not part of the cache model (separate latency model, C15); UpdateSize is not modelled",
+    "latency windows and UpdateSize are modelled beside the cache model in Model/CacheX.lean (proved conservative over Model/Cache.lean; used by C15), not inside it",
 ]
 
 CACHE_ASSUMPTIONS = [
